@@ -52,10 +52,11 @@ def build(name, sources, extra=(), exe_name=None, stub_undefined=False):
 
 def runexe(exe, args, timeout=600):
     try:
-        p = subprocess.run([exe] + [str(a) for a in args], capture_output=True, text=True, timeout=timeout)
+        env = dict(os.environ, ASAN_OPTIONS='detect_leaks=0')     # the replay programs do not free their own scaffolding
+        p = subprocess.run([exe] + [str(a) for a in args], capture_output=True, text=True, timeout=timeout, env=env)
     except subprocess.TimeoutExpired:
         return {'confirmed': False, 'detail': 'native run timed out', 'args': args}
-    if p.returncode < 0 or (p.returncode != 0 and 'AddressSanitizer' in p.stderr):
+    if p.returncode < 0 or (p.returncode != 0 and 'ERROR: AddressSanitizer' in p.stderr):
         if p.returncode >= 0:
             m = [l for l in p.stderr.split('\n') if 'ERROR: AddressSanitizer' in l or l.strip().startswith('#0') or l.strip().startswith('#1')]
             return {'confirmed': True, 'detail': 'AddressSanitizer: ' + ' | '.join(m[:4]), 'args': args}
